@@ -328,6 +328,33 @@ type vC13Gen struct {
 	scopes  []netip.Prefix
 	recent  []vC13QKey
 	textual []vC13Name // names that are textual, not structural, suffixes of pool names
+	traps   []vC13Trap // (zone, name with an escaped-dot label whose tail spells the zone's first labels)
+}
+
+// A trap: zone Z = l1.l2...lk and a name that is NOT at or below Z although its
+// presentation string ends in Z's: some label is "x.l1[.l2...]" (dots inside the
+// label, written "\." in presentation form) followed by the rest of Z.  Any walk
+// that looks for the parent in the TEXT of the name visits Z as an ancestor.
+type vC13Trap struct {
+	zone, name vC13Name
+}
+
+// every way of folding the first j labels of zone into one dotted label, with 0..2 plain labels in front
+func vC13TrapsFor(r *rand.Rand, zone vC13Name) []vC13Trap {
+	var out []vC13Trap
+	for j := 1; j <= len(zone); j++ {
+		label := vC13RandLabel(r, false)
+		for _, l := range zone[:j] {
+			label = append(append(label, '.'), l...)
+		}
+		name := vC13Name{}
+		for k := r.Intn(3); k > 0; k-- {
+			name = append(name, vC13RandLabel(r, false))
+		}
+		name = append(append(name, label), zone[j:]...)
+		out = append(out, vC13Trap{zone: zone, name: name})
+	}
+	return out
 }
 
 func vC13RandLabel(r *rand.Rand, special bool) []byte {
@@ -383,6 +410,18 @@ func newVC13Gen(r *rand.Rand) *vC13Gen {
 		for _, sib := range vC13TextualSiblings(nm) {
 			g.names = append(g.names, sib)
 			g.textual = append(g.textual, sib)
+		}
+	}
+	if r.Intn(2) == 0 {
+		// escaped-dot labels whose tail spells a zone of the pool, at every position
+		z3 := append(vC13Name{vC13RandLabel(r, false)}, z2...)
+		g.names = append(g.names, z3)
+		for _, z := range []vC13Name{{tld}, z2, z3} {
+			for _, t := range vC13TrapsFor(r, z) {
+				g.traps = append(g.traps, t)
+				g.names = append(g.names, t.name)
+				g.textual = append(g.textual, t.zone)
+			}
 		}
 	}
 	alienTLD := []byte("zz")
@@ -514,8 +553,14 @@ func vC13Durations(r *rand.Rand) (time.Duration, time.Duration) {
 
 // ------------------------------------------------------------- history case
 
-func vC13History(r *rand.Rand, quickOps int) map[string]any {
+func vC13History(r *rand.Rand, quickOps int) map[string]any { return vC13HistoryWith(r, quickOps, nil) }
+
+// fixed != nil: a corpus history — only the directed trap block, on the given zone and name
+func vC13HistoryWith(r *rand.Rand, quickOps int, fixed *vC13Trap) map[string]any {
 	g := newVC13Gen(r)
+	if fixed != nil {
+		g.traps = []vC13Trap{*fixed}
+	}
 	init, max := vC13Durations(r)
 	size := 64
 	small := r.Intn(6) == 0
@@ -523,6 +568,9 @@ func vC13History(r *rand.Rand, quickOps int) map[string]any {
 		size = 2 + r.Intn(5)
 	}
 	disabled := r.Intn(10) == 0
+	if fixed != nil {
+		small, size, disabled = false, 64, false
+	}
 	clock := &vC13Clock{now: vC13Base}
 	fc, err := NewFailureCache(FailureCacheConfig{Size: size, InitialTTL: init, MaxTTL: max, Now: clock.Now})
 	if err != nil {
@@ -580,10 +628,65 @@ func vC13History(r *rand.Rand, quickOps int) map[string]any {
 		ops = append(ops, fmt.Sprintf("ORetryKey %s %s", k.coq(), obs))
 		desc = append(desc, fmt.Sprintf("FailureRetryKey %s -> %s", k.coq(), obs))
 	}
+	opRecZone := func(z vC13Name, c uint16) {
+		tab.addZone(z, c)
+		before := vC13Keys(fc)
+		st.RecordZoneFailure(dns.Question{Name: "seed." + z.pres(), Qtype: dns.TypeA, Qclass: c}, z.pres())
+		h := failureZoneHash(normalizeFailureZoneKey(FailureZoneKey{Zone: z.pres(), Qclass: c}))
+		ev := vC13Evicted(before, vC13Keys(fc))
+		noteSlot(h)
+		obs := vC13SlotCoq(fc, h)
+		ops = append(ops, fmt.Sprintf("ORecZ %d (Some %s) %s %s", c, z.coq(), ev, obs))
+		desc = append(desc, fmt.Sprintf("RecordZoneFailure %q class %d -> %s", z.pres(), c, obs))
+	}
+	opResetMatching := func(k vC13QKey) {
+		tab.addQuestion(k)
+		st.resetMatchingFailures(dns.Question{Name: k.name.pres(), Qtype: k.qtype, Qclass: k.qclass}, k.cd, k.scope)
+		ops = append(ops, "OResetMatching "+k.coq())
+		desc = append(desc, "resetMatchingFailures "+k.coq())
+	}
+	opAdvance := func(dt int64) {
+		if dt < 0 {
+			dt = 0
+		}
+		clock.now = clock.now.Add(time.Duration(dt))
+		ops = append(ops, fmt.Sprintf("OAdvance %d", dt))
+		desc = append(desc, fmt.Sprintf("advance %s", time.Duration(dt)))
+	}
+	// Directed: zone Z fails; a name whose escaped-dot label only SPELLS Z is asked
+	// for (decoded and wire lookups, retry key) and recovers (ResetMatching); a real
+	// child of Z is asked before and after.  Then the same once Z's backoff has ended.
+	runTrap := func(t vC13Trap) {
+		c := uint16(dns.ClassINET)
+		trap := vC13QKey{name: g.caseMix(t.name), qtype: dns.TypeA, qclass: c, cd: r.Intn(3) == 0}
+		child := vC13QKey{name: append(vC13Name{vC13RandLabel(r, false)}, t.zone...), qtype: dns.TypeA, qclass: c, cd: trap.cd}
+		opRecZone(g.caseMix(t.zone), c)
+		opLookup(trap)
+		opLookupWire(trap)
+		opRetryKey(trap)
+		opLookup(child)
+		opResetMatching(trap)
+		opLookup(child)
+		opLookupWire(child)
+		if e, ok := fc.loadEntry(failureZoneHash(normalizeFailureZoneKey(FailureZoneKey{Zone: t.zone.pres(), Qclass: c}))); ok && e != nil {
+			opAdvance(int64(e.retryAfter.Sub(clock.now)) + int64(r.Intn(2)))
+		}
+		opRetryKey(trap)
+		opRetryKey(child)
+		opResetMatching(trap)
+		opRetryKey(child)
+	}
 	nops := quickOps/2 + r.Intn(quickOps)
+	trapAt := -1
+	if len(g.traps) > 0 && !disabled {
+		trapAt = r.Intn(nops)
+	}
+	if fixed != nil {
+		nops, trapAt = 1, 0
+	}
 	// a key whose streak is about to saturate: its own state, written into its
 	// own slot, expired a moment ago; the following failures renew it
-	saturating := !disabled && r.Intn(8) == 0
+	saturating := fixed == nil && !disabled && r.Intn(8) == 0
 	var satKey vC13QKey
 	if saturating {
 		satKey = g.hot()
@@ -602,6 +705,10 @@ func vC13History(r *rand.Rand, quickOps int) map[string]any {
 	}
 	for i := 0; i < nops; i++ {
 		w := r.Intn(100)
+		if i == trapAt {
+			runTrap(g.traps[r.Intn(len(g.traps))])
+			continue
+		}
 		if saturating && i < 8 && i%2 == 0 {
 			// fail again as soon as the current generation has ended
 			if e, ok := fc.loadEntry(failureQuestionHash(normalizeFailureQuestionKey(satKey.fkey()))); ok && e != nil {
@@ -910,6 +1017,11 @@ func vC13History(r *rand.Rand, quickOps int) map[string]any {
 		k = "hist-small-capacity"
 	case collisions > 0:
 		k = "hist-collisions"
+	case trapAt >= 0:
+		k = "hist-escaped-dot-trap"
+	}
+	if fixed != nil {
+		k = "hist-corpus-trap"
 	}
 	return map[string]any{
 		"k": k,
@@ -1192,12 +1304,52 @@ func vC13RaceCase(r *rand.Rand) map[string]any {
 	}
 }
 
+// corpus/C13/unit.json: [{"zone": ["dead","example"], "name": ["foo.dead","example"]}] — labels as raw octets
+func vC13UnitCorpus(t *testing.T) []vC13Trap {
+	dir := os.Getenv("VERIF_CORPUS")
+	if dir == "" {
+		return nil
+	}
+	b, err := os.ReadFile(dir + "/unit.json")
+	if os.IsNotExist(err) {
+		return nil
+	}
+	if err != nil {
+		t.Fatalf("corpus: %v", err)
+	}
+	var raw []struct {
+		Zone []string `json:"zone"`
+		Name []string `json:"name"`
+	}
+	if err := json.Unmarshal(b, &raw); err != nil {
+		t.Fatalf("corpus unit.json: %v", err)
+	}
+	var out []vC13Trap
+	for _, x := range raw {
+		var tr vC13Trap
+		for _, l := range x.Zone {
+			tr.zone = append(tr.zone, []byte(l))
+		}
+		for _, l := range x.Name {
+			tr.name = append(tr.name, []byte(l))
+		}
+		if len(tr.name) == 0 {
+			t.Fatalf("corpus unit.json: empty name")
+		}
+		out = append(out, tr)
+	}
+	return out
+}
+
 func TestVerifC13Unit(t *testing.T) {
 	tr := vC13Open(t)
 	defer tr.f.Close()
 	seed := int64(vC13EnvInt("VERIF_SEED", 1))
 	n := vC13EnvInt("VERIF_N", 300)
 	r := rand.New(rand.NewSource(seed))
+	for i, t := range vC13UnitCorpus(t) {
+		tr.emit(vC13HistoryWith(rand.New(rand.NewSource(int64(7000+i))), 24, &t))
+	}
 	for i := 0; i < n; i++ {
 		tr.emit(vC13History(r, 24))
 	}
